@@ -52,6 +52,13 @@ pub fn clear_thread_state() {
     ALL_NODES.with(|c| c.borrow_mut().clear());
 }
 
+/// C12: remember a node the interpreter created itself (the watch node of a top-level variable)
+pub fn track_node(tag: Tag, n: &Incr<Val>) {
+    if TRACK_ALL.with(|c| c.get()) {
+        ALL_NODES.with(|i| i.borrow_mut().push((tag, n.weak())));
+    }
+}
+
 pub fn canary() -> Rc<()> {
     CANARY.with(|c| c.borrow().clone())
 }
